@@ -251,10 +251,10 @@ def WState (e : Ent T) : Prop := Absent e ∨ ∃ cur, WInv e cur
 theorem step_preserves {e : Ent T} (h : WState e) (op : Op T)
     (hsafe : match op with
       | .snap i _ => othersCurrent e i
-      | .add _ _ _ => Absent e
+      | .add _ _ _ _ => Absent e
       | _ => True) : WState (step e op).1 := by
   cases op with
-  | add i inst wf =>
+  | add i inst wf disk =>
     simp only [step, add]
     cases wf
     · simp only [Bool.false_eq_true, if_false]
@@ -266,7 +266,8 @@ theorem step_preserves {e : Ent T} (h : WState e) (op : Op T)
         by_cases hji : j = i
         · simp [hji] at hj; rw [← hj]; exact Reaches.refl _
         · simp [hji] at hj; rw [hsafe.2.2 j] at hj; cases hj
-    · exact h
+    · simp only [if_true]
+      exact Or.inl ⟨hsafe.1, hsafe.2.1, hsafe.2.2⟩
   | cmd i c wf =>
     simp only [step, sendCommand]
     rcases h with ha | ⟨cur, hc⟩
